@@ -103,7 +103,7 @@ def _select(ctx, vecs):
     for v in vecs:
         cls = v.get("cls", "")
         always = v["panic"] or v["k"] == "enc" or cls in ("real-encoder-output", "gen:assembled", "gen:offset-beyond-output",
-                                                                 "gen:truncated-in-match-length", "gen:offset-zero")
+                                                                 "gen:truncated-in-match-length", "gen:offset-zero") or cls.startswith("gen:length-prefix-huge")
         if v["k"] == "enc" and len(v["body"]) > 1100 and (v["id"] + ctx.seed) % 3 != 0 and not v["panic"]:
             always = False      # bodies above 1 KiB: a third per run (the TLA+ decoders work byte by byte)
         if cls == "real-encoder-output" and len(v["out"]) > 1100 and (v["id"] + 1 + ctx.seed) % 3 != 0:
@@ -171,7 +171,7 @@ def run(ctx):
     nstream = {alg: sum(1 for s in streams if s["alg"] == alg) for alg in ("snappy", "lz4")}
     for alg in ("snappy", "lz4"):
         got = sum(1 for v in vec[alg] if v.get("cls", "").startswith("gen:"))
-        if got + summ[alg]["skipped_huge_declared"] < nstream[alg]:
+        if got + summ[alg]["skipped_huge_declared"] + summ[alg]["boundary_prefix_not_executed"] < nstream[alg]:
             raise vf.Inconclusive("%s driver executed %d of %d generated streams" % (alg, got, nstream[alg]))
 
     # ---- 3. TLC judges
@@ -235,6 +235,10 @@ def run(ctx):
     for alg in ("snappy", "lz4"):
         if summ[alg]["big_bad"]:
             ctx.notes.append("large-body Go round trip (not decided by the specification) FAILED for %s: %s" % (alg, summ[alg]["big_bad"]))
+        if summ[alg]["boundary_prefix_not_executed"]:
+            ctx.notes.append("%s: %d streams with a declared length at the 2^31 / 2^32 boundary could not be executed (the child "
+                             "process ended, e.g. the runtime could not allocate what the prefix says) - not judged" % (
+                                 alg, summ[alg]["boundary_prefix_not_executed"]))
         if summ[alg]["skipped_huge_declared"]:
             ctx.notes.append("%s: %d corrupted streams not executed because their length prefix would make Decode allocate > 64 MiB "
                              "(allocation from untrusted lengths is property C05's subject)" % (alg, summ[alg]["skipped_huge_declared"]))
@@ -264,6 +268,7 @@ def run(ctx):
         executed_in_go=len(allv), judged_by_tlc=judged, executed_not_judged_quick_sample=unjudged, undecided_by_reference=undecided,
         states=states, transitions=trans,
         generated_base_streams=nbase, generated_streams=len(streams),
+        boundary_length_prefixes_executed={a: summ[a]["boundary_prefix_run"] for a in ("snappy", "lz4")},
         encoder_bodies={a: summ[a]["enc"] for a in ("snappy", "lz4")}, decoder_inputs={a: summ[a]["dec"] for a in ("snappy", "lz4")},
         request_kinds_framer=len({v["name"] for v in vec["frames"]}), framer_vectors=len(vec["frames"]),
         incompressible_blob_frames=len(vec["blobs"]), incompressible_blob_sizes=len({v["blob"] for v in vec["blobs"]}),
